@@ -18,7 +18,13 @@ Probes: 2.0-style ``select`` of every class (ordered), legacy ``Query.all()``, `
 relationship of every persistent object, ``count(*)``, relationship ``any()`` / ``has()``, ``exists``-style scalar,
 bulk ``UPDATE`` and bulk ``DELETE`` through ``session.execute``.
 
-Mutations caught: see MUTATIONS at the end of this docstring (filled in by the self-test round).
+Mutations caught (VF_REPO=/tmp/wt-orm2):
+  * Session._autoflush: skipped when only deletes are pending -> "result" (select/query/count still see the deleted row)
+  * strategies._LazyLoader._emit_lazyload: lazy loads never autoflush -> "result" / "database" for lazy probes
+  * context.ORMCompileState.orm_pre_session_exec: no autoflush for statements with WHERE criteria -> get / where_fk / any probes
+  * bulk_persistence: bulk UPDATE/DELETE without autoflush -> bulk probes
+  * Session.no_autoflush: block does not switch autoflush off -> "suppressed-route-block-flushed"
+  * context: execution option autoflush=False ignored -> "suppressed-route-option-flushed"
 """
 import sqlalchemy as sa
 from sqlalchemy import exc as sa_exc
@@ -44,8 +50,8 @@ META = dict(
     "answer differs from the answer without any flush (autoflush was observable)",
     assumptions=["SQLite", "single session", "probe family as listed"],
     bounds=dict(
-        quick="worlds U1(su, all+orphan) U2 U3 U4 U5 U7 U8; histories <= 2 ops after empty/populated roots; all probes",
-        thorough="same worlds plus U1(all), U5(passive_updates=False); histories <= 3 ops; all probes",
+        quick="worlds U1(su, all+orphan) U2 U3 U5 U8; histories <= 2 ops after the empty and the populated committed root; all probes",
+        thorough="plus U7 U4 U1(all) U5(passive_updates=False) U3(su) U2(su), three roots; histories <= 2 ops (<= 3 for the two U1 worlds after the populated root); all probes",
     ),
 )
 SHARD_TIMEOUT = dict(quick=600, thorough=3000)
@@ -55,9 +61,9 @@ KINDS = ("add", "delete", "set", "rel", "flush")
 
 def world_keys(tier):
     SU, ALL, ORPH = c30.SU, c30.ALL, c30.ORPH
-    ks = [("U1", SU), ("U1", ORPH), ("U7", ORPH), ("U3", ORPH), ("U2", ALL), ("U4", ORPH), ("U5", True, SU), ("U8", ALL)]
+    ks = [("U1", SU), ("U1", ORPH), ("U3", ORPH), ("U2", ALL), ("U5", True, SU), ("U8", ALL)]
     if tier != "quick":
-        ks += [("U1", ALL), ("U5", False, SU), ("U3", SU), ("U2", SU)]
+        ks += [("U7", ORPH), ("U4", ORPH), ("U1", ALL), ("U5", False, SU), ("U3", SU), ("U2", SU)]
     return ks
 
 
@@ -65,7 +71,10 @@ def shards(tier, seed):
     out = []
     for wk in world_keys(tier):
         for ri in range(len(c30.ROOTS[wk[0]])):
-            out.append(dict(world=wk, root=ri, depth=2 if tier == "quick" else 3))
+            if tier == "quick" and ri >= 2:
+                continue
+            deep = tier != "quick" and wk in (("U1", c30.SU), ("U1", c30.ORPH)) and ri == 1
+            out.append(dict(world=wk, root=ri, depth=3 if deep else 2))
     return out
 
 
@@ -189,6 +198,11 @@ def run_probe(run, p, route):
                 col = getattr(cls, l.fk)
                 r = s.execute(sa.delete(cls).where(col.is_(None)), execution_options=eo)
                 out.append((l.holder, r.rowcount))
+            for cname, cls in w.classes.items():
+                if w.spec.cls[cname].base is None:
+                    dc = getattr(cls, w.spec.data_col(cname))
+                    r = s.execute(sa.delete(cls).where(dc == "no such value"), execution_options=eo)
+                    out.append((cname, r.rowcount))
             return out
         raise AssertionError(p)
 
@@ -321,9 +335,7 @@ def check_state(rec, w, shard, h, probes):
             # the explicit flush fails: the autoflush must fail the same way (lazy loads of non-persistent objects and
             # identity-map hits do not need to flush)
             touched = ra.nflush > 0 or a[0] == "exc"
-            if a[0] == "exc" and a[1] != flush_err:
-                viol("error-class", p, "explicit flush raised %s, autoflush route raised %s" % (flush_err, a[1]))
-            elif a[0] == "ok" and _must_flush(p, ra):
+            if a[0] == "ok" and _must_flush(p, ra):
                 viol("autoflush-missing-on-failing-flush", p, "explicit flush raises %s, probe returned %r" % (flush_err, a[1]))
             rec.case((wk, h, p), nontrivial=a[0] == "exc")
             rec.outcome(("flush-error", a[0]))
@@ -391,6 +403,12 @@ def run_shard(shard, tier, rec):
     rec.count("probes_per_state", 0)
     orig = c32.TXN_KINDS
     for h, ms in c32.enumerate_histories(w, root, shard["depth"], True):
+        exp = ms.expect_flush(af=True)
+        if any(tag for tag, _ in exp["outcomes"]) or exp.get("known_err") or exp.get("known_any") or (exp["error"] and not exp["must_error"]):
+            # the flush of this state runs into a catalogued load-order dependent defect (f1 f3 f6 f7 f9; C30 / C39) or has
+            # an open outcome: two replicas of the same state need not agree, whichever route they take
+            rec.count("states_skipped_catalogued_or_open")
+            continue
         check_state(rec, w, shard, h, probes)
 
 
